@@ -589,7 +589,7 @@ class C12(Base):
 
     def project(self, case, obs):
         # `cs` (the same select on concurrent bundles with a warmed formatter cache) is judged by the predicate only
-        return ";".join(p for p in obs.split(";") if not p.startswith("cs="))
+        return ";".join(p for p in obs.split(";") if not p.startswith(("cs=", "ds=", "tp=")))
 
     def predicate(self, case, impl_obs):
         bad = super().predicate(case, impl_obs)
@@ -603,6 +603,10 @@ class C12(Base):
         o = parse_obs(impl_obs)
         if not all(k in o for k in "pqsr"):
             return "malformed observation"
+        if o.get("ds", "same") != "same":
+            return "two selects on the same value in ONE pattern (with / without visible fraction digits) do not choose what each chooses alone: " + o["ds"][:80]
+        if o.get("tp", "na") not in ("same", "na"):
+            return "a number literal passed to a term as a named argument lost its written form: p=%s s=%s but %s" % (o["p"], o["s"], o["tp"][:80])
         if o.get("cs", "same") != "same":
             return "the selected variant depends on the bundle flavour / on which plural rules were cached first: s=%s but %s" % (o["s"], o["cs"])
         if c.ood:
